@@ -2,7 +2,7 @@
    inertness of unscheduled tasks with respect to workers (C06). *)
 From Coq Require Import ZArith List Bool Lia ZifyBool.
 From Coq Require String.
-From PS.model Require Import Smt Enc Prog.
+From PS.model Require Import Smt Enc Ind Prog.
 From PS.spec Require Import Spec.
 From PS.proofs Require Import Base Cons_proof.
 Import ListNotations.
